@@ -1,5 +1,68 @@
-(* Properties/C04.v — weighted graph.  Statements only. *)
-From Verif Require Import Base.Str Base.Outcome Model.Ast Model.WGraph Model.WWeights.
+(* Properties/C04.v — weighted graph: weights equal the true maximum tuple-hop depth.
+   Statements only; proofs in Proofs/StrategyProofs.v, WeightsProofs.v, Witnesses.v.
+   [assign_weights] transcribes AssignWeights statement by statement with the depth-first start order as
+   an argument (Model/WWeights.v); the correspondence runs it against the implementation (hooked to take
+   the same order) on every model of every run, cyclic ones included.
+   Proved for all inputs: what each of the three strategies computes from the operand edges (any number
+   of edges and types), that this is what the strategy functions store, and the edge rule for terminal
+   targets.  The global statement — on every accepted model every node carries the least-fixed-point
+   depths of Spec/Weights.v — is NOT proved (the invariant of the depth-first traversal was not
+   mechanised in the time available; see DESIGN.md); it is refuted outside the domain "every operand of an intersection/exclusion is one distinct edge, model
+   well-founded" by the witnesses 6-7 (known findings K-C04-operands, K-WG-cycles), and on the rest it is
+   checked on every run by the oracle of run/lib/graphspec.py against the implementation. *)
+From Verif Require Import Base.Str Base.Outcome Model.Ast Model.Printer Model.WGraph Model.WWeights Spec.Weights
+  Proofs.StrategyProofs Proofs.WeightsProofs Proofs.Witnesses.
 
-Theorem C04_empty_model : forall s, build_weighted None {| m_schema := s; m_types := []; m_conds := [] |} = Ok empty_graph.
-Proof. reflexivity. Qed.
+(* 1. union and plain relations: a type is present iff some operand edge has it, with the largest weight *)
+Theorem C04_union_strategy : forall ws k,
+  Forall (fun w => NoDup (keys w)) ws -> wget k (max_weights ws) = omax_all k ws.
+Proof. exact max_strategy_spec. Qed.
+Theorem C04_union_strategy_is_the_code : forall s id s',
+  max_strategy s id = Ok s' -> edges_from (ws_g s) id <> [] ->
+  s' = upd_node s id (fun n => with_weights n (max_weights (map e_weights (edges_from (ws_g s) id)))).
+Proof. exact max_strategy_computes. Qed.
+
+(* 2. intersection: present iff every operand edge has it, largest weight; a type that one operand lacks can
+      never come back through a later operand *)
+Theorem C04_intersection_strategy : forall first rest k, NoDup (keys first) ->
+  wget k (enforce_weights first rest) = fold_left (fun acc w => oand acc (wget k w)) rest (wget k first).
+Proof. exact enforce_strategy_spec. Qed.
+Theorem C04_intersection_no_restart : forall first rest1 w rest2 k,
+  NoDup (keys first) -> wget k w = None -> wget k (enforce_weights first (rest1 ++ w :: rest2)) = None.
+Proof. exact enforce_no_restart. Qed.
+Theorem C04_intersection_strategy_is_the_code : forall s id s' first rest,
+  edges_from (ws_g s) id = first :: rest -> enforce_strategy s id = Ok s' ->
+  s' = upd_node s id (fun n => with_weights n (enforce_weights (e_weights first) (map e_weights rest))).
+Proof. exact enforce_strategy_computes. Qed.
+
+(* 3. exclusion: the types of the edges before the last one (max); the last edge only raises weights *)
+Theorem C04_exclusion_strategy : forall init last_w k,
+  Forall (fun w => NoDup (keys w)) init -> NoDup (keys last_w) ->
+  wget k (raise_only (max_weights init) last_w) =
+  match omax_all k init with Some x => omax (Some x) (wget k last_w) | None => None end.
+Proof. exact mixed_strategy_spec. Qed.
+Theorem C04_exclusion_strategy_is_the_code : forall s id s' init last_e,
+  edges_from (ws_g s) id = init ++ [last_e] -> mixed_strategy s id = Ok s' ->
+  s' = upd_node s id (fun n => with_weights n (raise_only (max_weights (map e_weights init)) (e_weights last_e))).
+Proof. exact mixed_strategy_computes. Qed.
+
+(* 4. never a panic, whatever the model and the start order *)
+Theorem C04_total : forall o m, is_panic (build_weighted o m) = false.
+Proof. exact build_weighted_no_panic. Qed.
+
+(* 5. a positive instance through the whole pipeline (three levels, union, intersection, exclusion, wildcard,
+      userset, tuple-to-userset): every relation's weights are the definition's *)
+Theorem C04_example_matches_definition : weights_match_spec m_good = true.
+Proof. exact m_good_matches. Qed.
+
+(* 6. refuted outside the domain — operand grouping: the model is fine by the definition (x reaches user at
+      depth 1) and is rejected *)
+Theorem C04_operands_refuted :
+  spec_of m_operands (lit "doc") (lit "x") = [(lit "user", 1)] /\
+  exists why, build_weighted None m_operands = Err (WInvalidModel why).
+Proof. split; [exact m_operands_spec|exact m_operands_rejected]. Qed.
+
+(* 7. refuted outside the domain — a relation left with an empty weight map *)
+Theorem C04_empty_weights_refuted :
+  exists g, build_weighted None m_empty = Ok g /\ n_weights (node_of g (lit "doc#c")) = [].
+Proof. exact m_empty_accepted. Qed.
